@@ -110,6 +110,9 @@ pub enum Edit {
     /// a whole-function `ir::dfs_pre_order_mut` pass with a `VisitorMut` (what instrumentation passes do):
     /// what 0 appends (`i32.const 0`, `drop`) to every instruction sequence, what 1 rewrites every `i32.const k` to `k ^ 1`
     VisitMutPass { func: u32, what: u8 },
+    /// `Module::add_import_{func,global,memory,table}` on a module that already has local items of that kind
+    /// (the parser always creates imports first; the API does not ask for that), optionally exported
+    AddImportLate { kind: u8, export: bool, flavour: u8 },
     RenameFunc { pick: u32, name: Option<String> },
     RenameModule { name: Option<String> },
     RenameLocal { pick: u32, name: Option<String> },
@@ -179,6 +182,7 @@ impl Op {
                 Edit::InsertNeutral { .. } => "edit_insert_neutral",
                 Edit::InsertTerminator { .. } => "edit_insert_terminator",
                 Edit::InsertViaBlockMut { .. } => "edit_insert_via_block_mut",
+                Edit::AddImportLate { .. } => "edit_add_import_late",
                 Edit::VisitMutPass { .. } => "edit_visitor_mut_pass",
                 Edit::RenameFunc { .. } => "edit_rename_func",
                 Edit::RenameModule { .. } => "edit_rename_module",
